@@ -1032,8 +1032,17 @@ func readsField(f *core.Func, v *types.Var) bool {
 // the helpers it hands on to) is dominated by a test that mentions the error
 // slot or one of the parser-side fault flags.
 func (c *Ctx) storeGuardedIn(g, set *core.Func, errField *types.Var, flags map[*types.Var]bool, depth int) bool {
-	if g == nil || g.Body == nil || depth > 2 {
-		return false
+	n, ok := c.storeSitesIn(g, set, errField, flags, depth)
+	return n > 0 && ok
+}
+
+// storeSitesIn counts the calls in g (and in the helpers of the package g hands
+// the work to) that reach the variable store, and reports whether each of them
+// is conditional on the error slot or on a fault flag - where the store is
+// made, or at any call on the way there.
+func (c *Ctx) storeSitesIn(g, set *core.Func, errField *types.Var, flags map[*types.Var]bool, depth int) (int, bool) {
+	if g == nil || g.Body == nil || depth > 3 {
+		return 0, false
 	}
 	gi := g.Info()
 	n, ok := 0, true
@@ -1047,25 +1056,35 @@ func (c *Ctx) storeGuardedIn(g, set *core.Func, errField *types.Var, flags map[*
 			return true
 		}
 		h := c.P.FuncOf(fo)
-		switch {
-		case h == set:
-			n++
-			mentions := false
+		mentions := func() bool {
+			found := false
 			for _, gd := range guardsOf(c.P, call, nil) {
 				ast.Inspect(gd.cond, func(y ast.Node) bool {
 					if se, isSel := y.(*ast.SelectorExpr); isSel {
 						if v := core.FieldOf(gi, se); v != nil && (v == errField || flags[v]) {
-							mentions = true
+							found = true
 						}
 					}
 					return true
 				})
 			}
-			if !mentions {
+			return found
+		}
+		switch {
+		case h == set:
+			n++
+			if !mentions() {
 				ok = false
+			}
+		case h != nil && h != g && h.Pkg == g.Pkg && !h.Generated && h.Body != nil && h.Decl != nil && h.Obj != nil && !h.Obj.Exported():
+			if m, inner := c.storeSitesIn(h, set, errField, flags, depth+1); m > 0 {
+				n += m
+				if !inner && !mentions() {
+					ok = false
+				}
 			}
 		}
 		return true
 	})
-	return n > 0 && ok
+	return n, ok
 }
